@@ -171,15 +171,44 @@ Proof.
   rewrite (validate_R _ _ _ H2), (eval_mapping_R _ _ _ H1); auto.
 Qed.
 
-Lemma build_atom_R : forall k reads dur cs s1 s2 drop,
-  R (vars_l reads ++ vars dur ++ cvars_l cs) s1 s2 ->
-  build_atom k reads dur cs s1 drop = build_atom k reads dur cs s2 drop.
+Lemma is_pos_R : forall s1 s2 e, R (vars e) s1 s2 -> is_pos s1 e = is_pos s2 e.
+Proof. intros. unfold is_pos. rewrite (eval_agree e _ _ (R_agree _ _ _ H)); auto. Qed.
+
+Lemma closed_all_R : forall s1 s2 es, R (vars_l es) s1 s2 ->
+  forallb (res_closed (lookup s1)) es = forallb (res_closed (lookup s2)) es.
 Proof.
-  intros k reads dur cs s1 s2 drop HR. unfold build_atom.
+  induction es as [|e r IH]; intros HR; cbn [forallb]; auto.
+  unfold vars_l in HR; cbn in HR. apply R_app in HR as [H1 H2].
+  rewrite (res_closed_agree e _ _ (R_agree _ _ _ H1)), IH; auto.
+Qed.
+
+Lemma scalar_R : forall s1 s2 es, R (vars_l es) s1 s2 -> scalar s1 es = scalar s2 es.
+Proof.
+  intros s1 s2 es HR. unfold scalar. destruct es as [|e r]; auto.
+  pose proof HR as [[HK [HF HB]] HA]. rewrite HF, (eval_all_R _ _ _ HR); auto.
+Qed.
+
+Lemma R_kept : forall s1 s2 dr l, R (vars_l (map snd l)) s1 s2 -> R (vars_l (kept dr l)) s1 s2.
+Proof. intros. eapply R_sub; [|exact H]. apply kept_vars. Qed.
+
+Lemma R_vars_app : forall s1 s2 a b, R (vars_l a) s1 s2 -> R (vars_l b) s1 s2 -> R (vars_l (a ++ b)) s1 s2.
+Proof.
+  intros s1 s2 a b [HI Ha] [_ Hb]. split; auto. intros x Hx. unfold vars_l in Hx. rewrite flat_map_app in Hx.
+  apply in_app_or in Hx as [Hx|Hx]; auto.
+Qed.
+
+Lemma build_atom_R : forall k chs reads dur cs s1 s2 drop,
+  R (vars_l reads ++ vars dur ++ cvars_l cs) s1 s2 ->
+  build_atom k chs reads dur cs s1 drop = build_atom k chs reads dur cs s2 drop.
+Proof.
+  intros k chs reads dur cs s1 s2 drop HR. unfold build_atom.
   rewrite (subset_R _ (vars_l reads ++ vars dur ++ cvars_l cs) s1 s2 HR); auto.
   pose proof HR as [[HK [HF HB]] HA]. rewrite HK, HF.
   apply R_app in HR as [Hr H]. apply R_app in H as [Hd Hc].
-  rewrite (validate_R _ _ _ Hc), (eval_all_R _ _ _ Hr), (is_zero_R _ _ _ Hd); auto.
+  rewrite (validate_R _ _ _ Hc), (eval_all_R _ _ _ Hr), (is_zero_R _ _ _ Hd), (is_pos_R _ _ _ Hd),
+          (closed_all_R _ _ _ Hr).
+  rewrite (eval_all_R s1 s2 (kept drop (combine chs reads))); auto.
+  eapply R_sub; [|exact Hr]. apply kept_combine_vars.
 Qed.
 
 Lemma fold_or_ext : forall X (f g : X -> result bool) l, (forall x, In x l -> f x = g x) -> fold_or f l = fold_or g l.
@@ -220,7 +249,10 @@ Proof.
       rewrite (fold_unit_ext _ (fun q => meas_at q s1) (fun q => meas_at q s2) subs); auto.
       intros q Hin. apply Hq; auto.
   - apply R_app in HR as [Hi Ho]. cbn [wf] in Hwf. destruct (IHp Hwf s1 s2 drop Hi) as [H1 H2].
-    split; auto. rewrite H1, (eval_all_R _ _ _ Ho); auto.
+    split; auto. rewrite H1, (eval_all_R _ _ _ (R_kept _ _ drop _ Ho)); auto.
+  - apply R_app in HR as [Hi Ho]. apply R_app in Ho as [Ha Hc]. cbn [wf] in Hwf.
+    destruct (IHp Hwf s1 s2 drop Hi) as [H1 H2]. split; auto.
+    rewrite H1, (scalar_R s1 s2 (sa ++ kept drop sc)); auto. apply R_vars_app; auto. apply R_kept; auto.
   - rewrite (eager_R _ _ _ _ HR); auto.
 Qed.
 
@@ -234,7 +266,10 @@ Proof.
   - destruct (build_R _ Hwf s1 s2 drop HR) as [H1 H2]. cbn [run]. rewrite H1, H2; auto.
   - destruct (build_R _ Hwf s1 s2 drop HR) as [H1 H2]. cbn [run]. rewrite H1, H2; auto.
   - cbn [pnames] in HR. apply R_app in HR as [Hi Ho]. cbn [wf] in Hwf. cbn [run].
-    rewrite (eval_all_R _ _ _ Ho), (IHp Hwf s1 s2 drop Hi); auto.
+    rewrite (eval_all_R _ _ _ (R_kept _ _ drop _ Ho)), (IHp Hwf s1 s2 drop Hi); auto.
+  - cbn [pnames] in HR. apply R_app in HR as [Hi Ho]. apply R_app in Ho as [Ha Hc]. cbn [wf] in Hwf. cbn [run].
+    rewrite (scalar_R s1 s2 (sa ++ kept drop sc)), (IHp Hwf s1 s2 drop Hi); auto.
+    apply R_vars_app; auto. apply R_kept; auto.
   - cbn [pnames] in HR. apply R_app in HR as [Hc H0]. apply R_app in H0 as [Hm Hs].
     cbn [wf] in Hwf. apply wf_subs in Hwf. rewrite Forall_forall in H, Hwf. cbn [run].
     rewrite (validate_R _ _ _ Hc), (meas_R _ _ _ Hm).
@@ -269,7 +304,7 @@ Qed.
 
 (* non-vacuity: an incomplete assignment (declared name 2 absent) and one with another extra name *)
 Example ex_incomplete :
-  create_program Proofs7.ex_tree [(0%N, 1%Q)] false = create_program Proofs7.ex_tree [(0%N, 1%Q); (9%N, 5%Q)] false.
+  create_program Proofs7.ex_tree [(0%N, 1%Q)] [] = create_program Proofs7.ex_tree [(0%N, 1%Q); (9%N, 5%Q)] [].
 Proof. apply irrelevant_full; [exact Proofs7.ex_uok|]. intros x Hx. vm_compute in Hx.
   repeat (destruct Hx as [<-|Hx]; [reflexivity|]). destruct Hx. Qed.
 Print Assumptions irrelevant_full.
